@@ -63,7 +63,10 @@ COHORTS = {"A": ["a", "b", "c"], "B": ["d", "e"], "C": ["e"], "D": ["d", "e", "b
 # the algorithms complete / read (annealing switched on with its length left unset -> `annealing.n_iter` is derived by
 # the algorithm; customised sampler parameters; customised solver options for scipy_minimize).
 _ANNEALING = {"do_annealing": True, "initial_temperature": 4.0, "n_plateau": 2}
-_MCMC_CUSTOM = {"n_iter": 10, "annealing": _ANNEALING, "sampler_ind_params": {"acceptation_history_length": 5}}
+# `sampler_pop` is a valid (shared MCMC) option that the personalization algorithms accept with a warning: population
+# samplers are then instantiated; the population variables must still come out untouched
+_MCMC_CUSTOM = {"n_iter": 10, "annealing": _ANNEALING, "sampler_ind_params": {"acceptation_history_length": 5},
+                "sampler_pop": "Gibbs", "sampler_pop_params": {"acceptation_history_length": 5}}
 PERSONALIZE_KW = {
     "scipy_minimize": {
         "default": {},
@@ -307,6 +310,11 @@ def make_inputs(spec, op, seed):
         feats = [f"Y{i}" for i in range(spec.get("dim", 2))]
         if op[1] == "dataframe":
             vp = {"visit_type": "dataframe", "df_visits": pd.DataFrame(copy.deepcopy(VISITS_ROWS))}
+        elif op[1] == "dataframe_int":
+            # integer identifiers (accepted by ingestion and by simulate): the caller's column must stay an integer column
+            rows = copy.deepcopy(VISITS_ROWS)
+            rows["ID"] = [{"s1": 101, "s2": 7, "s3": 32}[i] for i in rows["ID"]]
+            vp = {"visit_type": "dataframe", "df_visits": pd.DataFrame(rows)}
         else:
             vp = copy.deepcopy(RANDOM_VISITS)
         return {"settings": AlgorithmSettings("simulate", seed=seed, features=feats, visit_parameters=vp)}
